@@ -150,7 +150,7 @@ impl Campaign for C20c {
         "C20"
     }
     fn rule(&self) -> &'static str {
-        "seeded histories: a burst of 1..12 connections (thorough: up to 40), each request answered by a handler thread after a generated virtual delay, then either (A) the server is dropped at a generated instant (requests pending in the backlog, queued, or handed out and unanswered) followed by a connect attempt and late answers, or (B) all clients close and the live library threads are counted 4.9 s and 5.001 s after the last activity (strict virtual time); non-trivial = (A) at least one request was answered after the drop, or (B) more than 4 workers existed; distinct = interleaving fingerprint"
+        "seeded histories: a burst of 1..12 connections (thorough: up to 40), each request answered by a handler thread after a generated virtual delay, then either (A) the server is dropped at a generated instant (requests pending in the backlog, queued, or handed out and unanswered) followed by a connect attempt and late answers, or (B) all clients close and the live library threads are counted 4.9 s and 5.001 s after the last activity (strict virtual time), or (C, one run in ten) after a burst of 16..40 connections one short connection per second keeps arriving for 7 s and the surplus workers of the burst must still be gone 6.5 s after it; non-trivial = (A) at least one request was answered after the drop, or (B, C) more than 4 workers existed; distinct = interleaving fingerprint"
     }
     fn runs(&self, tier: Tier) -> u64 {
         match tier {
@@ -173,6 +173,34 @@ impl Campaign for C20c {
         sc.knobs.strategy = strategy(&mut k);
         let mut g = rng.sub("scenario");
         let sub_b = index % 2 == 1;
+        if index % 10 == 8 {
+            // sub C: a large burst, everybody leaves, then one short connection per second keeps
+            // arriving: workers that have been idle for the idle period must still go, although
+            // some worker is given work every second
+            let n = *g.pick(&[16usize, 24, 40]);
+            for ci in 0..n {
+                let (c, id) = one_request_conn(&mut g, ci, MS, false, false);
+                sc.conns.push(c);
+                sc.programs.insert(id.clone(), Program::respond(200, token_body(&id, 10)));
+            }
+            let trickle = 7;
+            for k in 0..trickle {
+                let ci = n + k;
+                let (c, id) = one_request_conn(&mut g, ci, SEC * (k as u64 + 1), false, false);
+                sc.conns.push(c);
+                sc.programs.insert(id.clone(), Program::respond(200, token_body(&id, 10)));
+            }
+            sc.receivers = loop_receivers(2, Dispatch::Inline);
+            sc.driver = vec![
+                DriverStep::Settle,
+                DriverStep::Snapshot("baseline".into()),
+                DriverStep::SleepUntil(6 * SEC + 500 * MS),
+                DriverStep::Settle,
+                DriverStep::Snapshot("trickle_6500ms".into()),
+            ];
+            sc.note = format!("C20 index {} sub C n={} trickle={}", index, n, trickle);
+            return sc;
+        }
         let n = if tier == Tier::Thorough && g.chance(1, 6) {
             g.usize(13, 40)
         } else {
@@ -238,6 +266,24 @@ impl Campaign for C20c {
     }
     fn check(&self, sc: &Scenario, out: &RunOut) -> Verdict {
         let mut v = Verdict::default();
+        if sc.note.contains("sub C") {
+            if let (Some(b), Some(s)) = (snap(out, "baseline"), snap(out, "trickle_6500ms")) {
+                let count = |x: &crate::engine::Snapshot| x.threads.iter().filter(|t| t.0 == "lib" && t.1 != "Finished").count();
+                let (base, live) = (count(b), count(s));
+                // by 6.5 s six connections have been dispatched since the burst ended at ~1 ms: each
+                // can have restarted the idle period of at most one worker
+                if live > base + 7 && !sc.knobs.spurious && !sc.knobs.racy_time {
+                    v.violations.push(Violation {
+                        clause: "C20.reclaim".into(),
+                        signature: "surplus workers idle for more than the idle period survive as long as some traffic trickles in".into(),
+                        detail: format!("{}: {} library threads alive at t=6.5 s (baseline {}, peak {}); the burst ended at t=1 ms and only one short connection per second has arrived since", sc.note, live, base, out.report.max_threads),
+                    });
+                }
+                v.nontrivial = true;
+            }
+            v.tags.push("sub=C".into());
+            return v;
+        }
         let sub_b = sc.note.contains("sub B");
         if sub_b {
             if let Some(s) = snap(out, "idle_5001ms") {
